@@ -3,14 +3,19 @@
 //! Everything is a complete product of small alphabets executed on the real `Timestamp`:
 //! (a) grid     : date-times (range ends, epoch, leap days/seconds, calendrically invalid ones) x EVERY
 //!                offset -23:59..+23:59 / Z / z / -00:00 (+ out-of-range offsets) x fraction shapes,
-//!                through `parse` and the four other parsing entry points (FromStr, TryFrom<&str>,
-//!                TryFrom<String>, serde);
+//!                through `parse` and seven other parsing entry points (FromStr, TryFrom<&str>, TryFrom<String>,
+//!                serde from a JSON string / a fully \u-escaped JSON string / a `Value` / bytes), each judged on its own;
 //! (b) raw      : all single (thorough: also all double) character edits of well-formed strings, judged by
 //!                a hand-written RFC 3339 recogniser;
 //! (c) unix     : `from_unix` on every second around both range ends / the epoch / the i64 and `time`
 //!                limits and on every month (thorough: day) boundary of years 0000..9999;
-//! (d) arith    : `checked_add` / `checked_sub`, boundary bases x 5 duration constructors x boundary counts;
-//! (e) order    : all pairs of a boundary set built through five different constructors.
+//! (d) arith    : `checked_add` / `checked_sub`, boundary bases x 5 duration constructors x boundary counts (every
+//!                u32::MAX/k, i32::MAX/k, u16::MAX/k -1..+2 for the unit ratios k, powers of two, the exact distance to the
+//!                range end), thorough: every day / week count with an in-range result; all op sequences <= 3 (4) over
+//!                a duration alphabet (a+b-b); durations obtained through serde (sub-second, negative, huge);
+//! (e) order    : all pairs of a boundary set built through five different constructors (Ord, Eq, Hash; collections);
+//! (f) clock    : `Timestamp::now_utc` / `Default` under the owned clock (custom_time registration);
+//! (g) json     : deserialisation of non-string / oddly framed JSON texts.
 //! Reference: an integer civil calendar made of a table of year starts (no code of `time` involved).
 
 use identity_core::common::{Duration, Timestamp};
@@ -18,7 +23,9 @@ use identity_core::convert::{FromJson, ToJson};
 use once_cell::sync::Lazy;
 use serde::{Deserialize, Serialize};
 use std::cmp::Ordering;
-use std::collections::{BTreeMap, BTreeSet};
+use std::collections::hash_map::DefaultHasher;
+use std::collections::{BTreeMap, BTreeSet, HashSet};
+use std::hash::{Hash, Hasher};
 use std::str::FromStr;
 use vx::rayon::prelude::*;
 use vx::{guard, json, Ctx, Level};
@@ -110,6 +117,18 @@ enum Case {
   Arith { base: i64, sub: bool, unit: u8, n: u32 },
   /// (unix second, constructor id) twice; see `build`.
   Pair { a: (i64, u8), b: (i64, u8) },
+  /// a sequence of (sub, unit, n) operations applied one after the other, starting from `from_unix(base)`
+  Compose { base: i64, ops: Vec<(bool, u8, u32)> },
+  /// a `Duration` obtained by deserialising `text`, then `base (+|-) it`
+  DurJson { text: String, base: i64, sub: bool },
+  /// two durations (unit, n): Eq / Ord / Hash / serde executed, only the trait contracts judged
+  DurPair { a: (u8, u32), b: (u8, u32) },
+  /// every instant of `pts` through every constructor, put into hash / ordered collections
+  Collections { pts: Vec<i64> },
+  /// the owned clock set to `secs`, then `Timestamp::now_utc()` and `Timestamp::default()`
+  Now { secs: i64 },
+  /// `Timestamp::from_json(text)` and friends on an arbitrary JSON text
+  Json { text: String },
 }
 
 #[derive(Default)]
@@ -253,32 +272,98 @@ fn in_range(u: i64) -> bool {
   (MIN..=MAX).contains(&u)
 }
 
-// ------------------------------------------------------------------ the five parsing entry points
+// ------------------------------------------------------------------ the parsing entry points
 enum PR {
   Ok(Timestamp),
-  Err(String),
+  Err,
   Panic(vx::Panicked),
 }
-const PATHS: [&str; 5] = ["parse", "from_str", "try_from<&str>", "try_from<String>", "deserialize"];
-fn run_path(path: usize, s: &str) -> PR {
-  let r = match path {
-    0 => guard(|| Timestamp::parse(s).map_err(|e| e.to_string())),
-    1 => guard(|| Timestamp::from_str(s).map_err(|e| e.to_string())),
-    2 => guard(|| Timestamp::try_from(s).map_err(|e| e.to_string())),
-    3 => guard(|| Timestamp::try_from(s.to_string()).map_err(|e| e.to_string())),
-    _ => {
-      let js = serde_json::to_string(s).expect("quote");
-      guard(|| Timestamp::from_json(&js).map_err(|e| e.to_string()))
+const PATHS: [&str; 8] =
+  ["parse", "from_str", "try_from<&str>", "try_from<String>", "deserialize", "deserialize(escaped)", "deserialize(value)", "deserialize(bytes)"];
+/// JSON string literal in which every character is written as a \uXXXX escape (forces the owned branch of the deserialiser).
+fn escaped_json(s: &str) -> String {
+  const HEX: &[u8; 16] = b"0123456789abcdef";
+  let mut o = String::with_capacity(2 + 6 * s.len());
+  o.push('"');
+  let mut buf = [0u16; 2];
+  for c in s.chars() {
+    for unit in c.encode_utf16(&mut buf) {
+      o.push_str("\\u");
+      for shift in [12u32, 8, 4, 0] {
+        o.push(HEX[((*unit >> shift) & 15) as usize] as char);
+      }
     }
-  };
-  match r {
+  }
+  o.push('"');
+  o
+}
+/// The error text is made only when a violation needs it (`err_text`): most inputs are rejected, on eight entry points.
+fn run_path(path: usize, s: &str) -> PR {
+  match run_path_full(path, s) {
     Ok(Ok(t)) => PR::Ok(t),
-    Ok(Err(e)) => PR::Err(e),
+    Ok(Err(_)) => PR::Err,
     Err(p) => PR::Panic(p),
+  }
+}
+fn err_text(path: usize, s: &str) -> String {
+  match run_path_full(path, s) {
+    Ok(Err(e)) => e.to_string(),
+    _ => "?".into(),
+  }
+}
+fn run_path_full(path: usize, s: &str) -> Result<Result<Timestamp, identity_core::Error>, vx::Panicked> {
+  match path {
+    0 => guard(|| Timestamp::parse(s)),
+    1 => guard(|| Timestamp::from_str(s)),
+    2 => guard(|| Timestamp::try_from(s)),
+    3 => guard(|| Timestamp::try_from(s.to_string())),
+    4 => {
+      let js = serde_json::to_string(s).expect("quote");
+      guard(|| Timestamp::from_json(&js))
+    }
+    5 => {
+      let js = escaped_json(s);
+      guard(|| Timestamp::from_json(&js))
+    }
+    6 => {
+      let v = serde_json::Value::String(s.to_string());
+      guard(|| Timestamp::from_json_value(v))
+    }
+    _ => {
+      let js = serde_json::to_vec(s).expect("quote");
+      guard(|| Timestamp::from_json_slice(&js))
+    }
   }
 }
 fn unix_of(t: &Timestamp) -> Result<i64, vx::Panicked> {
   guard(|| t.to_unix())
+}
+
+/// One formatting path judged on its text: `demand_canonical` (to_rfc3339, the documented RFC 3339 formatter) = the text is
+/// a canonical whole-second UTC RFC 3339 string denoting `u`; every formatting path: parsing the text gives the value back.
+fn judge_text(ctx: &Ctx, api: &str, text: &str, t: Timestamp, u: i64, demand_canonical: bool, case: &Case) {
+  if demand_canonical {
+    match recognise(text) {
+      Some(r) if expectation(&r).class == Class::Canonical && r.frac_len == 0 && matches!(r.off, Off::Z | Off::Num { neg: false, h: 0, m: 0 }) => {
+        if expectation(&r).instant != Some(u) {
+          ctx.violation(&format!("Timestamp::{api}|denotes-other-instant"), &format!("to_unix {u} but formats as {text}"), case);
+        }
+      }
+      _ => ctx.violation(&format!("Timestamp::{api}|not-canonical-utc-whole-seconds"), &format!("to_unix {u} formats as {text:?}"), case),
+    }
+  }
+  match guard(|| Timestamp::parse(text)) {
+    Ok(Ok(b)) if b == t => {}
+    other => ctx.violation(
+      &format!("Timestamp::parse({api})|not-identity"),
+      &format!("{text:?} -> {}", match other {
+        Ok(Ok(b)) => format!("unix {:?}", unix_of(&b).ok()),
+        Ok(Err(e)) => format!("Err({e})"),
+        Err(p) => format!("panic {}", p.msg),
+      }),
+      case,
+    ),
+  }
 }
 
 /// Clauses that hold for EVERY in-range value however it was obtained. `u` = its `to_unix()`.
@@ -287,26 +372,7 @@ fn check_value(ctx: &Ctx, t: Timestamp, u: i64, case: &Case) {
     Ok(f) => f,
     Err(p) => return ctx.violation(&format!("Timestamp::to_rfc3339|{}", p.key()), &format!("value with unix second {u}: {}", p.msg), case),
   };
-  match recognise(&fmt) {
-    Some(r) if expectation(&r).class == Class::Canonical && r.frac_len == 0 && matches!(r.off, Off::Z | Off::Num { neg: false, h: 0, m: 0 }) => {
-      if expectation(&r).instant != Some(u) {
-        ctx.violation("Timestamp::to_rfc3339|denotes-other-instant", &format!("to_unix {u} but formats as {fmt}"), case);
-      }
-    }
-    _ => ctx.violation("Timestamp::to_rfc3339|not-canonical-utc-whole-seconds", &format!("to_unix {u} formats as {fmt:?}"), case),
-  }
-  match guard(|| Timestamp::parse(&fmt)) {
-    Ok(Ok(b)) if b == t => {}
-    other => ctx.violation(
-      "Timestamp::parse(to_rfc3339)|not-identity",
-      &format!("{fmt:?} -> {}", match other {
-        Ok(Ok(b)) => format!("unix {:?}", unix_of(&b).ok()),
-        Ok(Err(e)) => format!("Err({e})"),
-        Err(p) => format!("panic {}", p.msg),
-      }),
-      case,
-    ),
-  }
+  judge_text(ctx, "to_rfc3339", &fmt, t, u, true, case);
   match guard(|| Timestamp::from_unix(u)) {
     Ok(Ok(b)) if b == t => {}
     other => ctx.violation(
@@ -326,15 +392,22 @@ fn check_value(ctx: &Ctx, t: Timestamp, u: i64, case: &Case) {
   if !(ok_s && ok_v && ok_b) {
     ctx.violation("Timestamp::from_json(to_json)|not-identity", &format!("{fmt}: string {ok_s} value {ok_v} bytes {ok_b}"), case);
   }
-  // the other formatting paths
+  // the other formatting paths: they must succeed; a text other than to_rfc3339's is not forbidden by the statement, it is
+  // recorded and judged by format-then-parse only
   match guard(|| format!("{t}")) {
     Ok(d) if d == fmt => {}
-    Ok(d) => ctx.violation("Timestamp::Display|differs-from-to_rfc3339", &format!("{d} vs {fmt}"), case),
+    Ok(d) => {
+      ctx.outcome("value:Display-differs-from-to_rfc3339 (judged by format-then-parse only)");
+      judge_text(ctx, "Display", &d, t, u, false, case);
+    }
     Err(p) => ctx.violation(&format!("Timestamp::Display|{}", p.key()), &p.msg, case),
   }
   match guard(|| String::from(t)) {
     Ok(d) if d == fmt => {}
-    Ok(d) => ctx.violation("String::from(Timestamp)|differs-from-to_rfc3339", &format!("{d} vs {fmt}"), case),
+    Ok(d) => {
+      ctx.outcome("value:String::from-differs-from-to_rfc3339 (judged by format-then-parse only)");
+      judge_text(ctx, "String::from", &d, t, u, false, case);
+    }
     Err(p) => ctx.violation(&format!("String::from(Timestamp)|{}", p.key()), &p.msg, case),
   }
   if let Err(p) = guard(|| format!("{t:?}")) {
@@ -342,7 +415,70 @@ fn check_value(ctx: &Ctx, t: Timestamp, u: i64, case: &Case) {
   }
 }
 
-/// Judge one input string on `parse`, then compare the four other entry points with `parse`.
+/// What one entry point did with one string, judged on its own.
+struct Verdict {
+  /// (outcome kind, value) used only to record whether the entry points agree
+  sig: (u8, Option<i64>),
+  label: String,
+  /// (key is `Timestamp::<entry point>|<clause>` if true, else the clause is the whole key; clause; detail)
+  viol: Vec<(bool, String, String)>,
+  /// accepted in-range value
+  value: Option<(Timestamp, i64)>,
+}
+fn judge_result(path: usize, r: &PR, s: &str, exp: &Expect, cls: &str, rng: &str) -> Verdict {
+  let mut v = Verdict { sig: (0, None), label: String::new(), viol: Vec::new(), value: None };
+  match r {
+    PR::Panic(p) => {
+      v.sig = (2, None);
+      v.viol.push((true, p.key(), format!("{s:?} ({cls}{rng}): {} @ {}", p.msg, p.loc)));
+      v.label = format!("PANIC:{cls}{rng}");
+    }
+    PR::Err => {
+      v.sig = (1, None);
+      if exp.class == Class::Canonical && exp.instant.map(in_range) == Some(true) {
+        v.viol.push((true, "rejected|canonical-in-range".into(), format!("{s:?} denotes unix second {:?}: {}", exp.instant, err_text(path, s))));
+      }
+      v.label = format!("rejected:{cls}{rng}");
+    }
+    PR::Ok(t) => match unix_of(t) {
+      Err(p) => {
+        v.sig = (3, None);
+        v.viol.push((false, format!("Timestamp::to_unix|{}", p.key()), format!("value parsed from {s:?}: {}", p.msg)));
+        v.label = format!("accepted:{cls}{rng}:to_unix-PANIC");
+      }
+      Ok(u) if !in_range(u) => {
+        v.sig = (3, Some(u));
+        let side = if u < MIN { "below" } else { "above" };
+        let f = match guard(|| t.to_rfc3339()) {
+          Ok(f) => format!("formats as {f:?}"),
+          Err(p) => format!("to_rfc3339 then panics: {} @ {}", p.msg, p.loc),
+        };
+        v.viol.push((true, format!("accepted|instant-{side}-range"), format!("{s:?} accepted with unix second {u}; {f}")));
+        v.label = format!("accepted:{cls}{rng}:OUT-OF-RANGE-VALUE");
+      }
+      Ok(u) => {
+        v.sig = (0, Some(u));
+        match (exp.class, exp.instant) {
+          (Class::Canonical | Class::Lenient, Some(e)) if e != u => {
+            let k = if (e - u).abs() == 1 { "off-by-one-second" } else { "other" };
+            v.viol.push((true, format!("wrong-instant|{k}"), format!("{s:?} denotes {e} (floor), parsed as {u}")));
+          }
+          (Class::Leap, Some(e)) if u != e && u != e + 1 => {
+            v.viol.push((true, "wrong-instant|leap-second-not-adjacent".into(), format!("{s:?}: second 59 is {e}, parsed as {u}")));
+          }
+          _ => {}
+        }
+        v.value = Some((*t, u));
+        v.label = format!("accepted:{cls}{rng}");
+      }
+    },
+  }
+  v
+}
+
+/// Judge one input string on every entry point, each on its own (an entry point may be stricter than `parse` on the
+/// inputs whose acceptance the statement leaves open). A clause already reported for `parse` on this string is not
+/// reported again under the name of another entry point (one defect, one key).
 /// Returns the outcome label (without the part prefix).
 fn judge_string(ctx: &Ctx, s: &str, exp: &Expect, case: &Case) -> String {
   let cls = match exp.class {
@@ -359,67 +495,38 @@ fn judge_string(ctx: &Ctx, s: &str, exp: &Expect, case: &Case) -> String {
     Some(_) => "/in-range",
     None => "",
   };
-  let r0 = run_path(0, s);
-  let label;
-  match &r0 {
-    PR::Panic(p) => {
-      ctx.violation(&format!("Timestamp::parse|{}", p.key()), &format!("{s:?} ({cls}{rng}): {} @ {}", p.msg, p.loc), case);
-      label = format!("PANIC:{cls}{rng}");
-    }
-    PR::Err(e) => {
-      if exp.class == Class::Canonical && exp.instant.map(in_range) == Some(true) {
-        ctx.violation("Timestamp::parse|rejected|canonical-in-range", &format!("{s:?} denotes unix second {:?}: {e}", exp.instant), case);
-      }
-      label = format!("rejected:{cls}{rng}");
-    }
-    PR::Ok(t) => match unix_of(t) {
-      Err(p) => {
-        ctx.violation(&format!("Timestamp::to_unix|{}", p.key()), &format!("value parsed from {s:?}: {}", p.msg), case);
-        label = format!("accepted:{cls}{rng}:to_unix-PANIC");
-      }
-      Ok(u) if !in_range(u) => {
-        let side = if u < MIN { "below" } else { "above" };
-        let f = match guard(|| t.to_rfc3339()) {
-          Ok(f) => format!("formats as {f:?}"),
-          Err(p) => format!("to_rfc3339 then panics: {} @ {}", p.msg, p.loc),
-        };
-        ctx.violation(&format!("Timestamp::parse|accepted|instant-{side}-range"), &format!("{s:?} accepted with unix second {u}; {f}"), case);
-        label = format!("accepted:{cls}{rng}:OUT-OF-RANGE-VALUE");
-      }
-      Ok(u) => {
-        match (exp.class, exp.instant) {
-          (Class::Canonical | Class::Lenient, Some(e)) if e != u => {
-            let k = if (e - u).abs() == 1 { "off-by-one-second" } else { "other" };
-            ctx.violation(&format!("Timestamp::parse|wrong-instant|{k}"), &format!("{s:?} denotes {e} (floor), parsed as {u}"), case);
-          }
-          (Class::Leap, Some(e)) if u != e && u != e + 1 => {
-            ctx.violation("Timestamp::parse|wrong-instant|leap-second-not-adjacent", &format!("{s:?}: second 59 is {e}, parsed as {u}"), case);
-          }
-          _ => {}
-        }
-        check_value(ctx, *t, u, case);
-        label = format!("accepted:{cls}{rng}");
-      }
-    },
+  let v0 = judge_result(0, &run_path(0, s), s, exp, cls, rng);
+  let mut seen: BTreeSet<&str> = BTreeSet::new();
+  for (specific, clause, detail) in &v0.viol {
+    let key = if *specific { format!("Timestamp::parse|{clause}") } else { clause.clone() };
+    ctx.violation(&key, detail, case);
+    seen.insert(clause);
   }
+  if let Some((t, u)) = v0.value {
+    check_value(ctx, t, u, case);
+  }
+  let mut differ = false;
   for path in 1..PATHS.len() {
-    let r = run_path(path, s);
-    let same = match (&r0, &r) {
-      (PR::Ok(a), PR::Ok(b)) => a == b,
-      (PR::Err(_), PR::Err(_)) => true,
-      (PR::Panic(_), PR::Panic(_)) => true,
-      _ => false,
-    };
-    if !same {
-      let d = |r: &PR| match r {
-        PR::Ok(t) => format!("Ok(unix {:?})", unix_of(t).ok()),
-        PR::Err(e) => format!("Err({e})"),
-        PR::Panic(p) => format!("panic({})", p.msg),
-      };
-      ctx.violation(&format!("Timestamp::{}|disagrees-with-parse", PATHS[path]), &format!("{s:?}: parse {} / {} {}", d(&r0), PATHS[path], d(&r)), case);
+    let v = judge_result(path, &run_path(path, s), s, exp, cls, rng);
+    differ |= v.sig != v0.sig;
+    for (specific, clause, detail) in &v.viol {
+      if seen.contains(clause.as_str()) {
+        continue;
+      }
+      let key = if *specific { format!("Timestamp::{}|{clause}", PATHS[path]) } else { clause.clone() };
+      ctx.violation(&key, &format!("[{}] {detail}", PATHS[path]), case);
+    }
+    if let Some((t, u)) = v.value {
+      if v0.value.map(|(t0, _)| t0 != t).unwrap_or(true) {
+        check_value(ctx, t, u, case);
+      }
     }
   }
-  label
+  if differ {
+    format!("{}+entry-points-differ(unjudged)", v0.label)
+  } else {
+    v0.label
+  }
 }
 
 /// Constructors used by the ordering part: the same instant `u` reached in five ways.
@@ -457,6 +564,81 @@ fn duration(unit: u8, n: u32) -> Duration {
     2 => Duration::hours(n),
     3 => Duration::days(n),
     _ => Duration::weeks(n),
+  }
+}
+
+/// Counts at which a constructor written with a narrower type, a cast or a multiplication by a unit ratio would go wrong.
+static BOUNDARY_COUNTS: Lazy<BTreeSet<u32>> = Lazy::new(|| {
+  let mut ns: BTreeSet<u32> = [0u32, 1, 2, 59, 60, 61, 3599, 3600, 3601, 86_399, 86_400, 86_401, 604_800, u32::MAX - 1, u32::MAX].into_iter().collect();
+  // ratios between the units (and to milli/micro seconds): n * k leaves u32 / i32 / u16 just above limit / k
+  for k in [7u64, 24, 60, 168, 1000, 1440, 3600, 10_080, 86_400, 604_800, 1_000_000] {
+    for lim in [u32::MAX as u64, i32::MAX as u64, u16::MAX as u64] {
+      let q = (lim / k) as i64;
+      for d in [-1i64, 0, 1, 2] {
+        if let Ok(n) = u32::try_from(q + d) {
+          ns.insert(n);
+        }
+      }
+    }
+  }
+  for p in [7u32, 8, 15, 16, 24, 31] {
+    let x = 1u32 << p;
+    ns.extend([x - 1, x, x + 1]);
+  }
+  ns
+});
+
+enum Step {
+  Panic,
+  None,
+  /// a violation was reported (result out of range / not the integer result)
+  Wrong,
+  Some(Timestamp, i64),
+}
+/// One `checked_add` / `checked_sub` on a value whose unix second is `cur`, judged by integer arithmetic.
+fn step(ctx: &Ctx, b: Timestamp, cur: i64, sub: bool, unit: u8, n: u32, case: &Case) -> Step {
+  let op = if sub { "checked_sub" } else { "checked_add" };
+  let delta = n as i128 * UNIT_SECS[unit as usize] as i128;
+  let want = cur as i128 + if sub { -delta } else { delta };
+  let want_ok = want >= MIN as i128 && want <= MAX as i128;
+  let dur = match guard(|| duration(unit, n)) {
+    Ok(d) => d,
+    Err(p) => {
+      ctx.violation(&format!("Duration::{}|{}", UNIT_NAME[unit as usize], p.key()), &format!("n={n}: {}", p.msg), case);
+      return Step::Panic;
+    }
+  };
+  let what = || format!("{}Z {op} {}({n}): reference {want}", civil_string(cur), UNIT_NAME[unit as usize]);
+  match guard(|| if sub { b.checked_sub(dur) } else { b.checked_add(dur) }) {
+    Err(p) => {
+      ctx.violation(&format!("Timestamp::{op}|{}", p.key()), &format!("{}: {}", what(), p.msg), case);
+      Step::Panic
+    }
+    Ok(None) => {
+      if want_ok {
+        ctx.violation(&format!("Timestamp::{op}|None|result-in-range"), &what(), case);
+        Step::Wrong
+      } else {
+        Step::None
+      }
+    }
+    Ok(Some(t)) => match unix_of(&t) {
+      Err(p) => {
+        ctx.violation(&format!("Timestamp::to_unix|{}", p.key()), &p.msg, case);
+        Step::Panic
+      }
+      Ok(u) => {
+        if !want_ok {
+          ctx.violation(&format!("Timestamp::{op}|Some|result-out-of-range"), &format!("{} got unix {u}", what()), case);
+          Step::Wrong
+        } else if u as i128 != want {
+          ctx.violation(&format!("Timestamp::{op}|Some|wrong-result"), &format!("{} got unix {u}", what()), case);
+          Step::Wrong
+        } else {
+          Step::Some(t, u)
+        }
+      }
+    },
   }
 }
 
@@ -546,61 +728,290 @@ fn judge(ctx: &Ctx, case: &Case, lo: &mut Local) {
       lo.outcome(label.to_string());
     }
     Case::Arith { base, sub, unit, n } => {
-      let op = if *sub { "checked_sub" } else { "checked_add" };
       let Some(b) = build(*base, 0) else {
         lo.outcome("arith:base-not-constructible".into());
         return;
       };
-      let delta = *n as i128 * UNIT_SECS[*unit as usize] as i128;
-      let want = *base as i128 + if *sub { -delta } else { delta };
-      let want_ok = want >= MIN as i128 && want <= MAX as i128;
-      let dur = match guard(|| duration(*unit, *n)) {
-        Ok(d) => d,
-        Err(p) => {
-          ctx.violation(&format!("Duration::{}|{}", UNIT_NAME[*unit as usize], p.key()), &format!("n={n}: {}", p.msg), case);
-          lo.outcome("arith:PANIC".into());
-          return;
-        }
-      };
-      let what = || format!("{}Z {op} {}({n}): reference {want}", civil_string(*base), UNIT_NAME[*unit as usize]);
-      let label = match guard(|| if *sub { b.checked_sub(dur) } else { b.checked_add(dur) }) {
-        Err(p) => {
-          ctx.violation(&format!("Timestamp::{op}|{}", p.key()), &format!("{}: {}", what(), p.msg), case);
-          "arith:PANIC"
-        }
-        Ok(None) => {
-          if want_ok {
-            ctx.violation(&format!("Timestamp::{op}|None|result-in-range"), &what(), case);
-          }
+      let label = match step(ctx, b, *base, *sub, *unit, *n, case) {
+        Step::Panic => "arith:PANIC",
+        Step::None => {
           if *sub {
             "arith:none-below-range"
           } else {
             "arith:none-above-range"
           }
         }
+        Step::Wrong => "arith:some-WRONG",
+        Step::Some(t, u) => {
+          check_value(ctx, t, u, case);
+          if *n == 0 {
+            "arith:some-unchanged"
+          } else {
+            "arith:some"
+          }
+        }
+      };
+      // the counts of the complete sweeps are counted per 1024-bucket, boundary counts one by one
+      let nk = if BOUNDARY_COUNTS.contains(n) { (0u8, *n) } else { (1u8, *n / 1024) };
+      lo.distinct.push(Ctx::hash_of(&(4u8, base, sub, unit, nk)));
+      lo.outcome(label.into());
+    }
+    Case::Compose { base, ops } => {
+      let Some(mut t) = build(*base, 0) else {
+        lo.outcome("compose:base-not-constructible".into());
+        return;
+      };
+      let mut cur = *base;
+      let mut done = 0usize;
+      let mut end = "completed";
+      for (sub, unit, n) in ops {
+        match step(ctx, t, cur, *sub, *unit, *n, case) {
+          Step::Panic => {
+            end = "PANIC";
+            break;
+          }
+          Step::Wrong => {
+            end = "WRONG";
+            break;
+          }
+          Step::None => {
+            end = "left-the-range";
+            break;
+          }
+          Step::Some(t2, u) => {
+            t = t2;
+            cur = u;
+            done += 1;
+          }
+        }
+      }
+      if done > 0 {
+        // the value reached by the whole history is an ordinary value (equal to from_unix of the integer result)
+        check_value(ctx, t, cur, case);
+      }
+      if end == "completed" && cur == *base && !ops.is_empty() {
+        end = "completed-back-at-the-base";
+      }
+      lo.distinct.push(Ctx::hash_of(&(6u8, base, ops)));
+      lo.outcome(format!("compose:{} ops:{end}", ops.len()));
+    }
+    Case::DurJson { text, base, sub } => {
+      let op = if *sub { "checked_sub" } else { "checked_add" };
+      let Some(b) = build(*base, 0) else {
+        lo.outcome("durjson:base-not-constructible".into());
+        return;
+      };
+      // deserialising a Duration is outside the statement: executed and recorded only
+      let d = match guard(|| Duration::from_json(text)) {
+        Err(_) => {
+          lo.outcome("durjson:duration-deserialiser-PANIC(unjudged)".into());
+          return;
+        }
+        Ok(Err(_)) => {
+          lo.outcome("durjson:duration-rejected".into());
+          return;
+        }
+        Ok(Ok(d)) => d,
+      };
+      // whatever the duration is, the result is nothing or an ordinary in-range whole-second value
+      let label = match guard(|| if *sub { b.checked_sub(d) } else { b.checked_add(d) }) {
+        Err(p) => {
+          ctx.violation(&format!("Timestamp::{op}|{}", p.key()), &format!("{}Z {op} Duration::from_json({text}): {}", civil_string(*base), p.msg), case);
+          "durjson:PANIC"
+        }
+        Ok(None) => "durjson:none",
         Ok(Some(t)) => match unix_of(&t) {
           Err(p) => {
             ctx.violation(&format!("Timestamp::to_unix|{}", p.key()), &p.msg, case);
-            "arith:PANIC"
+            "durjson:PANIC"
+          }
+          Ok(u) if !in_range(u) => {
+            ctx.violation(&format!("Timestamp::{op}|Some|result-out-of-range"), &format!("{}Z {op} Duration::from_json({text}) got unix {u}", civil_string(*base)), case);
+            "durjson:some-OUT-OF-RANGE"
           }
           Ok(u) => {
-            if !want_ok {
-              ctx.violation(&format!("Timestamp::{op}|Some|result-out-of-range"), &format!("{} got unix {u}", what()), case);
-            } else if u as i128 != want {
-              ctx.violation(&format!("Timestamp::{op}|Some|wrong-result"), &format!("{} got unix {u}", what()), case);
+            check_value(ctx, t, u, case);
+            if u == *base {
+              "durjson:some-same-second"
             } else {
-              check_value(ctx, t, u, case);
-            }
-            if *n == 0 {
-              "arith:some-unchanged"
-            } else {
-              "arith:some"
+              "durjson:some-other-second"
             }
           }
         },
       };
-      lo.distinct.push(Ctx::hash_of(&(4u8, base, sub, unit, if *unit == 0 && *n <= 100_000 { *n / 64 } else { *n })));
+      lo.distinct.push(Ctx::hash_of(&(7u8, text, base, sub)));
       lo.outcome(label.into());
+    }
+    Case::DurPair { a, b } => {
+      let (Ok(da), Ok(db)) = (guard(|| duration(a.0, a.1)), guard(|| duration(b.0, b.1))) else {
+        // a panicking constructor is judged by the arithmetic part
+        lo.outcome("durpair:constructor-PANIC".into());
+        return;
+      };
+      let sa = a.1 as i128 * UNIT_SECS[a.0 as usize] as i128;
+      let sb = b.1 as i128 * UNIT_SECS[b.0 as usize] as i128;
+      let hd = |d: &Duration| {
+        let mut h = DefaultHasher::new();
+        d.hash(&mut h);
+        h.finish()
+      };
+      match guard(|| (da == db, da.cmp(&db), da.partial_cmp(&db), hd(&da) == hd(&db))) {
+        Err(p) => ctx.violation(&format!("Duration::cmp|{}", p.key()), &p.msg, case),
+        Ok((eq, ord, pord, heq)) => {
+          // trait contracts only (Eq/Ord consistency, equal values hash equally); that equality follows the number of
+          // seconds is not part of the statement and only recorded
+          if eq != (ord == Ordering::Equal) || pord != Some(ord) {
+            ctx.violation("Duration::cmp|inconsistent-with-eq", &format!("{a:?} vs {b:?}: == {eq}, cmp {ord:?}, partial_cmp {pord:?}"), case);
+          }
+          if eq && !heq {
+            ctx.violation("Duration::hash|equal-values-hash-differently", &format!("{a:?} vs {b:?}"), case);
+          }
+          let mut label = if ord == sa.cmp(&sb) { "durpair:order-follows-seconds".to_string() } else { "durpair:order-DIFFERS-from-seconds(unjudged)".to_string() };
+          if a == b {
+            label.push_str(match guard(|| da.to_json().and_then(|js| Duration::from_json(&js))) {
+              Ok(Ok(d2)) if d2 == da => "/json-round-trip-equal",
+              Ok(Ok(_)) => "/json-round-trip-OTHER-VALUE(unjudged)",
+              Ok(Err(_)) => "/json-round-trip-ERR(unjudged)",
+              Err(_) => "/json-round-trip-PANIC(unjudged)",
+            });
+          }
+          lo.outcome(label);
+        }
+      }
+      lo.distinct.push(Ctx::hash_of(&(8u8, a, b)));
+    }
+    Case::Collections { pts } => {
+      let mut vals: Vec<Timestamp> = Vec::new();
+      for &u in pts.iter() {
+        for via in 0..VIA.len() as u8 {
+          if let Some(t) = build(u, via) {
+            vals.push(t);
+          }
+        }
+      }
+      let want: BTreeSet<i64> = pts.iter().copied().collect();
+      let got = guard(|| {
+        let hs: HashSet<Timestamp> = vals.iter().copied().collect();
+        let bs: BTreeSet<Timestamp> = vals.iter().copied().collect();
+        let mut sorted = vals.clone();
+        sorted.sort();
+        let mut hs_u: Vec<i64> = hs.iter().map(|t| t.to_unix()).collect();
+        hs_u.sort_unstable();
+        (
+          hs_u,
+          bs.iter().map(|t| t.to_unix()).collect::<Vec<i64>>(),
+          sorted.iter().map(|t| t.to_unix()).collect::<Vec<i64>>(),
+          vals.iter().copied().min().map(|t| t.to_unix()),
+          vals.iter().copied().max().map(|t| t.to_unix()),
+        )
+      });
+      match got {
+        Err(p) => ctx.violation(&format!("Timestamp::cmp|{}", p.key()), &p.msg, case),
+        Ok((hs_u, bs_u, sorted_u, mn, mx)) => {
+          // only meaningful if every operand was constructible (otherwise judged elsewhere)
+          if vals.len() == pts.len() * VIA.len() {
+            let w: Vec<i64> = want.iter().copied().collect();
+            // a hash set and an ordered set of the same values have the same members (Hash consistent with Eq, Eq with Ord)
+            if hs_u != bs_u {
+              ctx.violation("Timestamp::hash|equal-values-hash-differently", &format!("HashSet of {} values over {} instants has {} members, BTreeSet {}", vals.len(), w.len(), hs_u.len(), bs_u.len()), case);
+            }
+            if bs_u != w || mn != w.first().copied() || mx != w.last().copied() || sorted_u.windows(2).any(|p| p[0] > p[1]) {
+              ctx.violation("Timestamp::cmp|differs-from-unix-second-order", &format!("BTreeSet {} members (want {}), min {mn:?} max {mx:?}", bs_u.len(), w.len()), case);
+            }
+            lo.outcome("collections:judged".into());
+          } else {
+            lo.outcome("collections:operand-not-constructible".into());
+          }
+        }
+      }
+      lo.distinct.push(Ctx::hash_of(&(9u8, pts)));
+    }
+    Case::Now { secs } => {
+      vx::fx::set_now(*secs);
+      let r = guard(|| (Timestamp::now_utc(), Timestamp::default()));
+      vx::fx::set_now(vx::fx::NOW);
+      match r {
+        Err(p) => {
+          ctx.violation(&format!("Timestamp::now_utc|{}", p.key()), &format!("registered clock at {secs}: {}", p.msg), case);
+          lo.outcome("now:PANIC".into());
+        }
+        Ok((now, dflt)) => {
+          // documented in custom_time.rs: with the feature every user of now_utc gets the registered function's value
+          match unix_of(&now) {
+            Ok(u) if u == *secs => check_value(ctx, now, u, case),
+            Ok(u) => ctx.violation("Timestamp::now_utc|differs-from-registered-clock", &format!("registered clock returns {secs}, now_utc() is {u}"), case),
+            Err(p) => ctx.violation(&format!("Timestamp::to_unix|{}", p.key()), &p.msg, case),
+          }
+          // Default: an ordinary value; that it is "now" is not part of the statement (recorded)
+          let l = match unix_of(&dflt) {
+            Ok(u) if in_range(u) => {
+              check_value(ctx, dflt, u, case);
+              if dflt == now {
+                "now:default-is-now"
+              } else {
+                "now:default-is-NOT-now(unjudged)"
+              }
+            }
+            Ok(u) => {
+              ctx.violation("Timestamp::default|value-out-of-range", &format!("unix {u}"), case);
+              "now:default-OUT-OF-RANGE"
+            }
+            Err(p) => {
+              ctx.violation(&format!("Timestamp::to_unix|{}", p.key()), &p.msg, case);
+              "now:PANIC"
+            }
+          };
+          lo.outcome(l.into());
+        }
+      }
+      lo.distinct.push(Ctx::hash_of(&(10u8, secs)));
+    }
+    Case::Json { text } => {
+      // three deserialising entry points on an arbitrary JSON text: nothing is demanded about acceptance; no panic, and an
+      // accepted value is an ordinary in-range value. A text that is a plain JSON string is judged like its content.
+      let mut kinds = Vec::new();
+      for (name, r) in [
+        ("from_json", guard(|| Timestamp::from_json(text).ok())),
+        ("from_json_slice", guard(|| Timestamp::from_json_slice(text.as_bytes()).ok())),
+        ("from_json_value", match serde_json::from_str::<serde_json::Value>(text) {
+          Ok(v) => guard(|| Timestamp::from_json_value(v).ok()),
+          Err(_) => Ok(None),
+        }),
+      ] {
+        match r {
+          Err(p) => {
+            ctx.violation(&format!("Timestamp::deserialize|{}", p.key()), &format!("{name}({text:?}): {}", p.msg), case);
+            kinds.push("PANIC");
+          }
+          Ok(None) => kinds.push("rejected"),
+          Ok(Some(t)) => match unix_of(&t) {
+            Err(p) => {
+              ctx.violation(&format!("Timestamp::to_unix|{}", p.key()), &p.msg, case);
+              kinds.push("PANIC");
+            }
+            Ok(u) if !in_range(u) => {
+              let side = if u < MIN { "below" } else { "above" };
+              ctx.violation(&format!("Timestamp::deserialize|accepted|instant-{side}-range"), &format!("{name}({text:?}) accepted with unix second {u}"), case);
+              kinds.push("accepted-OUT-OF-RANGE");
+            }
+            Ok(u) => {
+              check_value(ctx, t, u, case);
+              kinds.push("accepted");
+            }
+          },
+        }
+      }
+      if let Ok(content) = serde_json::from_str::<String>(text) {
+        let exp = match recognise(&content) {
+          Some(r) => expectation(&r),
+          None => Expect { class: Class::Unrecognised, instant: None },
+        };
+        let l = judge_string(ctx, &content, &exp, case);
+        kinds.push(if l.starts_with("accepted") { "content-accepted" } else { "content-rejected" });
+      }
+      kinds.dedup();
+      lo.distinct.push(Ctx::hash_of(&(11u8, text)));
+      lo.outcome(format!("json:{}", kinds.join("/")));
     }
     Case::Pair { a, b } => {
       let (Some(ta), Some(tb)) = (build(a.0, a.1), build(b.0, b.1)) else {
@@ -610,6 +1021,18 @@ fn judge(ctx: &Ctx, case: &Case, lo: &mut Local) {
       };
       let want = a.0.cmp(&b.0);
       let what = || format!("{}Z via {} vs {}Z via {}", civil_string(a.0), VIA[a.1 as usize], civil_string(b.0), VIA[b.1 as usize]);
+      let ht = |t: &Timestamp| {
+        let mut h = DefaultHasher::new();
+        t.hash(&mut h);
+        h.finish()
+      };
+      // Hash contract of the standard library: values that ARE equal (real `==`) hash equally. Whether `==` is right is judged
+      // below; nothing is demanded for unequal values.
+      match guard(|| (ta == tb, ht(&ta) == ht(&tb))) {
+        Err(p) => ctx.violation(&format!("Timestamp::hash|{}", p.key()), &p.msg, case),
+        Ok((true, false)) => ctx.violation("Timestamp::hash|equal-values-hash-differently", &what(), case),
+        Ok(_) => {}
+      }
       match guard(|| (ta.cmp(&tb), ta.partial_cmp(&tb), ta == tb, ta != tb, ta < tb, ta <= tb, ta > tb, ta >= tb, ta.to_unix().cmp(&tb.to_unix()))) {
         Err(p) => ctx.violation(&format!("Timestamp::cmp|{}", p.key()), &p.msg, case),
         Ok(got) => {
@@ -666,6 +1089,27 @@ fn run_items<T: Sync>(ctx: &Ctx, part: &str, items: &[T], mk: impl Fn(&T) -> Cas
     lo.flush(ctx);
   });
   let n = items.len() as u64;
+  ctx.add_states(n);
+  ctx.add_transitions(n);
+  ctx.add_traces(n);
+}
+
+/// Same, for the cases `mk(0) .. mk(n-1)` made on the fly (nothing of size n is ever held in memory).
+fn run_range(ctx: &Ctx, part: &str, n: u64, mk: impl Fn(u64) -> Case + Sync) {
+  if n == 0 {
+    return;
+  }
+  for i in [0, n / 2, n - 1] {
+    ctx.sample(part, &mk(i));
+  }
+  const CHUNK: u64 = 2048;
+  (0..n.div_ceil(CHUNK)).into_par_iter().for_each(|c| {
+    let mut lo = Local::default();
+    for i in c * CHUNK..n.min((c + 1) * CHUNK) {
+      judge(ctx, &mk(i), &mut lo);
+    }
+    lo.flush(ctx);
+  });
   ctx.add_states(n);
   ctx.add_transitions(n);
   ctx.add_traces(n);
@@ -820,7 +1264,7 @@ fn subst2(s: &str) -> BTreeSet<String> {
 }
 
 fn generate(ctx: &Ctx) {
-  ctx.rule("complete products: (a) date-time x separator x offset x fraction strings on 5 parsing entry points; (b) all 1-edit (thorough: 2-edit) neighbours of seed strings; (c) from_unix on complete second windows + all month/day boundaries; (d) checked_add/sub base x unit x count table; (e) all ordered pairs of boundary values x 5 constructors. distinct_nontrivial = distinct (date-time, separator, offset sign+hour, outcome) of grid cases other than rejected invalid fields + distinct raw strings other than rejected non-RFC-3339 + distinct (UTC day, outcome) of the from_unix seconds + distinct arithmetic cases (the seconds(0..=100000) sweep counted per 64-second bucket) + distinct ordered pairs");
+  ctx.rule("complete products: (a) date-time x separator x offset x fraction strings on 5 parsing entry points; (b) all 1-edit (thorough: 2-edit) neighbours of seed strings; (c) from_unix on complete second windows + all month/day boundaries; (d) checked_add/sub base x unit x count table, all operation sequences up to the length bound over a 30-op alphabet from 9 bases, serde-made durations x bases x {add,sub}, all ordered pairs of 60 durations; (e) all ordered pairs of boundary values x 5 constructors, the same values in hash/ordered collections; (f) now_utc/Default for every clock value of a boundary set; (g) a list of JSON texts on the 3 deserialising entry points. distinct_nontrivial = distinct (date-time, separator, offset sign+hour, outcome) of grid cases other than rejected invalid fields + distinct raw strings other than rejected non-RFC-3339 + distinct (UTC day, outcome) of the from_unix seconds + distinct arithmetic cases (counts outside the boundary table counted per 1024-bucket) + distinct operation sequences, duration texts x base x op, duration pairs, ordered pairs, clock values, JSON texts");
   ctx.assume("serde_json string quoting is trusted for building the deserialisation inputs; the calendar of the `time` crate is NOT trusted (reference = table of year starts built from the Gregorian leap rule)");
   // self-test of the reference calendar on the two constants documented on from_unix and two anchors
   ctx.require(civil_to_unix(0, 1, 1, 0, 0, 0) == MIN, "reference calendar: 0000-01-01T00:00:00Z != -62167219200");
@@ -939,7 +1383,7 @@ fn generate(ctx: &Ctx) {
   for &base in &bases {
     for sub in [false, true] {
       for unit in 0..5u8 {
-        let mut ns: BTreeSet<u32> = [0u32, 1, 2, 59, 60, 61, 3599, 3600, 3601, 86_399, 86_400, 86_401, 604_800, 1 << 31, (1 << 31) - 1, u32::MAX - 1, u32::MAX].into_iter().collect();
+        let mut ns: BTreeSet<u32> = BOUNDARY_COUNTS.clone();
         // the exact distance to the range end in this direction, in units, -1 / +0 / +1 / +2
         let dist = if sub { base - MIN } else { MAX - base };
         let q = dist / UNIT_SECS[unit as usize];
@@ -948,7 +1392,7 @@ fn generate(ctx: &Ctx) {
             ns.insert(n);
           }
         }
-        if ctx.thorough() && unit == 0 {
+        if ctx.thorough() && unit <= 1 {
           ns.extend(0..=100_000u32);
         }
         for n in ns {
@@ -958,7 +1402,90 @@ fn generate(ctx: &Ctx) {
     }
   }
   run_items(ctx, "checked_add/checked_sub", &arith, |&(base, sub, unit, n)| Case::Arith { base, sub, unit, n });
-  ctx.part("checked_add/checked_sub", json!({"cases": arith.len(), "bases": bases.len(), "units": UNIT_NAME}));
+  ctx.part("checked_add/checked_sub", json!({"cases": arith.len(), "bases": bases.len(), "units": UNIT_NAME, "boundary_counts": BOUNDARY_COUNTS.len()}));
+  {
+    // complete sweeps: every count whose result can be in range (+ a margin of 1000 beyond), counted away from a range end.
+    // quick: weeks from both ends; thorough: weeks and days from two bases at each end, hours from both ends.
+    let span = MAX - MIN;
+    let ends: Vec<(i64, bool)> = vec![(MIN, false), (MAX, true)];
+    let ends4: Vec<(i64, bool)> = vec![(MIN, false), (MAX, true), (MIN + 1, false), (MAX - 86_399, true)];
+    let plan: Vec<(u8, &Vec<(i64, bool)>)> = if ctx.quick() { vec![(4, &ends)] } else { vec![(4, &ends4), (3, &ends4), (2, &ends)] };
+    let mut swept = 0u64;
+    for (unit, froms) in plan {
+      let top = (span / UNIT_SECS[unit as usize]) as u64 + 1000;
+      for &(base, sub) in froms.iter() {
+        run_range(ctx, "checked_add/checked_sub complete sweeps", top + 1, |n| Case::Arith { base, sub, unit, n: n as u32 });
+        swept += top + 1;
+      }
+      ctx.bound(&format!("sweep_{}", UNIT_NAME[unit as usize]), format!("every n in 0..={top} from {} bases", froms.len()));
+    }
+    ctx.part("checked_add/checked_sub complete sweeps", json!({"cases": swept}));
+  }
+
+  // ---- (d2) operation sequences (a+b-b, a+b+c, ...): every sequence over the op alphabet, from every base
+  let durs: Vec<(u8, u32)> = vec![
+    (0, 0), (0, 1), (0, 59), (1, 1), (2, 1), (2, 24), (3, 1), (3, 365), (4, 1), (4, 52), (0, u32::MAX), (1, u32::MAX), (2, 87_658_127), (3, 3_652_424), (4, 521_774),
+  ];
+  let ops: Vec<(bool, u8, u32)> = durs.iter().flat_map(|&(u, n)| [(false, u, n), (true, u, n)]).collect();
+  let cbases: Vec<i64> = vec![MIN, MIN + 1, -1, 0, 1, 1_700_000_000, (MIN + MAX) / 2, MAX - 1, MAX];
+  let depth = ctx.by_tier(3usize, 4);
+  let mut total = 0u64;
+  for len in 1..=depth {
+    let per_base = (ops.len() as u64).pow(len as u32);
+    let n = per_base * cbases.len() as u64;
+    total += n;
+    let (ops, cbases) = (&ops, &cbases);
+    run_range(ctx, "operation sequences", n, move |i| {
+      let base = cbases[(i / per_base) as usize];
+      let mut r = i % per_base;
+      let mut seq = Vec::with_capacity(len);
+      for _ in 0..len {
+        seq.push(ops[(r % ops.len() as u64) as usize]);
+        r /= ops.len() as u64;
+      }
+      Case::Compose { base, ops: seq }
+    });
+  }
+  ctx.part("operation sequences", json!({"bases": cbases.len(), "op_alphabet": ops.len(), "max_length": depth, "cases": total}));
+  ctx.bound("operation_sequence_length", depth);
+
+  // ---- (d3) durations that only serde can make
+  let mut dtexts: BTreeSet<String> = BTreeSet::new();
+  for t in [
+    "\"0.000000000\"", "\"0.5\"", "\"0.500000000\"", "\"0.999999999\"", "\"1.000000001\"", "\"-0.000000001\"", "\"-0.5\"", "\"-1.000000000\"", "\"-1.500000000\"",
+    "\"59.999999999\"", "\"4294967295.999999999\"", "\"315569519999.000000000\"", "\"315569519999.999999999\"", "\"315569520000.000000000\"", "\"-315569519999.999999999\"",
+    "\"9223372036854775807.999999999\"", "\"-9223372036854775808.999999999\"", "\"1.9999999999\"", "\"1\"", "\"1.\"", "\".5\"",
+    "[0,0]", "[0,1]", "[0,500000000]", "[0,999999999]", "[0,-1]", "[-1,0]", "[-1,-500000000]", "[1,-1]", "[-1,1]", "[0,1000000000]", "[0,2147483647]", "[0,-2147483648]",
+    "[9223372036854775807,999999999]", "[-9223372036854775808,-999999999]", "[315569519999,999999999]", "[315569520000,0]", "[1]", "[]", "[1,2,3]",
+    "1", "1.5", "-1", "null", "{}", "{\"secs\":1,\"nanos\":0}", "\"PT1S\"",
+  ] {
+    dtexts.insert(t.to_string());
+  }
+  // and the library's own encoding of constructor-made durations (whatever it is)
+  for (unit, n) in [(0u8, 0u32), (0, 1), (0, u32::MAX), (1, 1), (1, u32::MAX), (2, 1), (2, u32::MAX), (3, 1), (3, 3_652_424), (3, u32::MAX), (4, 1), (4, 521_774), (4, u32::MAX)] {
+    if let Ok(Ok(js)) = guard(|| duration(unit, n).to_json()) {
+      dtexts.insert(js);
+    }
+  }
+  let mut dj = Vec::new();
+  for t in &dtexts {
+    for base in [MIN, MIN + 1, -1, 0, 1_700_000_000, MAX - 1, MAX] {
+      for sub in [false, true] {
+        dj.push(Case::DurJson { text: t.clone(), base, sub });
+      }
+    }
+  }
+  run_cases(ctx, "deserialised durations", &dj);
+  ctx.part("deserialised durations", json!({"texts": dtexts.len(), "cases": dj.len(), "judged": "no panic in checked_add/sub; a result is an ordinary in-range whole-second value"}));
+  let dvals: Vec<(u8, u32)> = (0..5u8).flat_map(|u| [0u32, 1, 7, 24, 60, 168, 1440, 3600, 10_080, 86_400, 604_800, u32::MAX].map(move |n| (u, n))).collect();
+  let mut dp = Vec::new();
+  for &a in &dvals {
+    for &b in &dvals {
+      dp.push(Case::DurPair { a, b });
+    }
+  }
+  run_cases(ctx, "duration pairs", &dp);
+  ctx.part("duration pairs", json!({"values": dvals.len(), "ordered_pairs": dp.len(), "judged": "Eq/Ord consistency and the Hash contract only"}));
 
   // ---- (e) ordering
   let pts: Vec<i64> = vec![MIN, MIN + 1, MIN + 86_399, MIN + 86_400, -1, 0, 1, 951_868_799, 951_868_800, 1_483_228_799, MAX - 86_400, MAX - 86_399, MAX - 1, MAX];
@@ -970,13 +1497,45 @@ fn generate(ctx: &Ctx) {
     }
   }
   run_cases(ctx, "ordering", &pairs);
-  ctx.part("ordering", json!({"values": vals.len(), "ordered_pairs": pairs.len(), "constructors": VIA}));
+  ctx.part("ordering", json!({"values": vals.len(), "ordered_pairs": pairs.len(), "constructors": VIA, "judged": "cmp, partial_cmp, ==, !=, <, <=, >, >=, Hash contract"}));
+  let mut rev = pts.clone();
+  rev.reverse();
+  run_cases(ctx, "collections", &[Case::Collections { pts: pts.clone() }, Case::Collections { pts: rev }, Case::Collections { pts: vec![MAX, MIN, 0] }]);
+
+  // ---- (f) owned clock
+  let mut nows: BTreeSet<i64> = [MIN, MIN + 1, MIN + 86_399, MIN + 86_400, -1, 0, 1, 951_868_799, 951_868_800, vx::fx::NOW, i32::MAX as i64, i32::MAX as i64 + 1, u32::MAX as i64, u32::MAX as i64 + 1, MAX - 86_400, MAX - 1, MAX]
+    .into_iter()
+    .collect();
+  for y in (0..=9999i64).step_by(ctx.by_tier(100, 1)) {
+    let u = civil_to_unix(y, 1, 1, 0, 0, 0);
+    nows.extend([u, u + 1]);
+    if y > 0 {
+      nows.insert(u - 1);
+    }
+  }
+  let nows: Vec<Case> = nows.into_iter().map(|secs| Case::Now { secs }).collect();
+  run_cases(ctx, "now_utc under the owned clock", &nows);
+  ctx.part("now_utc under the owned clock", json!({"clock_values": nows.len()}));
+
+  // ---- (g) JSON texts that are not a plain string
+  let jtexts = [
+    "null", "true", "false", "0", "1", "-1", "1700000000", "-62167219200", "-62167219201", "253402300799", "253402300800", "1.7e9", "1700000000.5", "9223372036854775807",
+    "-9223372036854775808", "18446744073709551615", "1e400", "[]", "[\"2000-01-01T00:00:00Z\"]", "[1700000000]", "[2000,1,0,0,0,0,0,0,0]", "{}", "{\"0\":\"2000-01-01T00:00:00Z\"}",
+    "\"\"", "\" \"", " \"2000-01-01T00:00:00Z\" ", "\n\"2000-01-01T00:00:00Z\"\n", "\"2000-01-01T00:00:00Z\"x", "\"2000-01-01T00:00:00Z\"\"\"", "\"2000-01-01T00:00:00Z", "2000-01-01T00:00:00Z",
+    "\"\\u0032000-01-01T00:00:00Z\"", "\"2000-01-01T00:00:00\\u005a\"", "\"2000-01-01T00:00:00\\u007a\"", "\"2000-01-01\\u0054\\u0030\\u0030:00:00Z\"", "\"2000-01-01\\t00:00:00Z\"", "\"2000-01-01T00:00:00Z\\n\"",
+    "\"2000-01-01T00:00:00Z\\u0000\"", "\"\\ud800\"", "\"\\ud83d\\ude00\"", "\"9999-12-31T23:59:59\\u002d00:01\"", "\"0000-01-01T00:00:00\\u002b00:01\"", "\"9999-12-31T23:59:60\\u005a\"",
+    "\"0000-01-01T00:00:00.999999999\\u002d00:00\"", "\"2000-01-01T00:00:00Z\" , 1", "",
+  ];
+  let jt: Vec<Case> = jtexts.iter().map(|t| Case::Json { text: t.to_string() }).collect();
+  run_cases(ctx, "json texts", &jt);
+  ctx.part("json texts", json!({"texts": jt.len(), "entry_points": ["from_json", "from_json_slice", "from_json_value"]}));
 
   ctx.bound("offsets", "every +-hh:mm with hh<=23, mm<=59 (2880) + Z + z + 6 out-of-range offsets");
   ctx.bound("fraction_shapes_base", fractions(true));
   ctx.bound("fraction_shapes_other", fractions(false));
   ctx.bound("base_date_times", base_dts.len());
-  ctx.bound("durations", "5 constructors x boundary counts incl. exact distance to the range end -1..+2, u32::MAX (thorough: seconds(0..=100000))");
+  ctx.bound("durations", "5 constructors x boundary counts: (u32|i32|u16)::MAX / k -1..+2 for k in {7,24,60,168,1000,1440,3600,10080,86400,604800,10^6}, 2^p -1..+1, small unit edges, u32::MAX-1, u32::MAX, the exact distance to the range end -1..+2 + every week count up to the span of the range + 1000 from both range ends (thorough: seconds and minutes 0..=100000 from every base, every hour, day and week count up to the span of the range + 1000)");
+  ctx.bound("boundary_counts", BOUNDARY_COUNTS.iter().copied().collect::<Vec<u32>>());
   ctx.bound("range", [MIN, MAX]);
 }
 
